@@ -285,6 +285,74 @@ func suiteSessions(e *vh.Env) {
 			e.Sample(map[string]interface{}{"case": i, "cap": capn, "sessions": nsess, "steps": steps, "simple": simple})
 		}
 	}
+	sessionsInFlightEviction(e, n)
+}
+
+// sessionsInFlightEviction: a response that arrives after its session was pushed out of the cache and then used
+// again must store its cookies in the session's current jar (the session is among the most recently used ones).
+func sessionsInFlightEviction(e *vh.Env, base int) {
+	for k := 0; k < e.N(3, 40); k++ {
+		if !e.Want(base + k) {
+			continue
+		}
+		capn := 2 + k%2
+		cache := sessions.NewCache(sessName, time.Hour, capn, true)
+		release := make(chan struct{})
+		var mu sync.Mutex
+		seen := map[string]string{} // path -> Cookie header the backend saw
+		backend := http.HandlerFunc(func(w http.ResponseWriter, r *http.Request) {
+			mu.Lock()
+			seen[r.URL.Path] = r.Header.Get("Cookie")
+			mu.Unlock()
+			if r.URL.Path == "/slow" {
+				<-release
+				w.Header().Add("Set-Cookie", "k=v")
+			}
+			w.WriteHeader(200)
+		})
+		h := cache.SessionHandler(backend, nil)
+		call := func(path, sid string) string {
+			req := httptest.NewRequest("GET", "http://app.example"+path, nil)
+			if sid != "" {
+				req.Header.Set("Cookie", sessName+"="+sid)
+			}
+			rw := httptest.NewRecorder()
+			h.ServeHTTP(rw, req)
+			for _, c := range (&http.Response{Header: rw.Header()}).Cookies() {
+				if c.Name == sessName {
+					return c.Value
+				}
+			}
+			return sid
+		}
+		a := call("/first", "")
+		slowDone := make(chan struct{})
+		go func() { call("/slow", a); close(slowDone) }()
+		for i := 0; i < 500; i++ {
+			mu.Lock()
+			_, at := seen["/slow"]
+			mu.Unlock()
+			if at {
+				break
+			}
+			time.Sleep(time.Millisecond)
+		}
+		for j := 0; j < capn; j++ { // enough other sessions to push A out
+			call(fmt.Sprintf("/other%d", j), "")
+		}
+		call("/again", a) // A is used again: it is the most recently used session now
+		close(release)
+		<-slowDone
+		call("/check", a)
+		mu.Lock()
+		got := seen["/check"]
+		mu.Unlock()
+		if got != "k=v" {
+			e.Fail("C10:backend-cookies-wrong", fmt.Sprintf("cache limit %d: session A had a request in flight, %d other sessions were created, A was used again, then the held response set cookie k=v; A's next request reached the backend with Cookie %q (a compliant jar for that session holds k=v)", capn, capn, got), base+k, nil, got, "k=v")
+		}
+		e.Eval(fmt.Sprintf("inflight-eviction-%d", k), true)
+		e.Count("in-flight-eviction")
+	}
 }
 
 // interimRecorder: a ResponseRecorder that, like a real server connection, lets 1xx responses (other than 101)
